@@ -49,7 +49,11 @@ fn watchdog_start() {
     WATCHDOG_STARTED.call_once(|| {
         std::thread::spawn(|| loop {
             std::thread::sleep(std::time::Duration::from_millis(500));
-            let limit = std::time::Duration::from_millis(HANG_LIMIT_MS.load(Ordering::SeqCst));
+            // stretched when the machine is overloaded (1-minute load above the core count, at most x4): a starved
+            // process is not a hanging request
+            let load = std::fs::read_to_string("/proc/loadavg").ok().and_then(|s| s.split_whitespace().next().and_then(|x| x.parse::<f64>().ok())).unwrap_or(0.0);
+            let cores = std::thread::available_parallelism().map(|n| n.get()).unwrap_or(16) as f64;
+            let limit = std::time::Duration::from_millis(HANG_LIMIT_MS.load(Ordering::SeqCst)).mul_f64((load / cores).clamp(1.0, 4.0));
             let hung: Option<String> = {
                 let g = IN_FLIGHT.lock().unwrap_or_else(|e| e.into_inner());
                 g.iter().find(|(_, f)| f.since.elapsed() > limit).map(|(_, f)| f.what.clone())
